@@ -322,6 +322,35 @@ def rule_node_types(ctx):
                              "or the tree holds a named node that node-types.json lists as anonymous)")
         else:
             ctx.bad("A2", "set_alias:named-bit-always-rewritten", "ProductionStep::set_alias no longer sets the alias-is-named bit")
+    # A3: the names a symbol can appear under: a step's own alias takes precedence over the symbol's default alias
+    fn = find_fn(ctx, F, "node_types::get_aliases_by_symbol", "A3")
+    if fn:
+        key = "get_aliases_by_symbol:step-alias-before-default"
+        site = [c for pt, c in fn.calls() if (c.get("fn") or "").endswith("::insert") and "BTreeSet" in (c.get("fn") or "") and len(c.get("a") or []) > 1
+                and "ProductionStep::alias(" in deep_text(fn, c["a"][1], user=True) and "default_aliases" in deep_text(fn, c["a"][1], user=True)]
+        if not site:
+            ctx.bad("A3", key, "get_aliases_by_symbol no longer records `step alias, else default alias` for every production step")
+        else:
+            x, verdict = rsrules.cond_def(fn, site[0]["a"][1]), None
+            for _ in range(8):
+                x = strip(x)
+                if x.get("k") != "call":
+                    break
+                g = x.get("fn") or ""
+                if any(g.endswith(k) for k in ("::or_else", "::or", "::unwrap_or", "::unwrap_or_else", "::map_or", "::map_or_else")) and len(x.get("a") or []) >= 2:
+                    first, second = deep_text(fn, x["a"][0], user=True), deep_text(fn, x["a"][1], user=True)
+                    verdict = ("ProductionStep::alias(" in first and "default_aliases" not in first and "default_aliases" in second, first, second)
+                    break
+                if not x.get("a"):
+                    break
+                x = rsrules.cond_def(fn, x["a"][0])
+            if verdict is None:
+                ctx.bad("A3", key, "the alias recorded for a step in get_aliases_by_symbol is no longer of the form `step.alias() or-else default alias` (`%s`)" % deep_text(fn, site[0]["a"][1], user=True)[:120])
+            elif verdict[0]:
+                ctx.ok("A3", key, "the recorded name is the step's own alias and only in its absence the symbol's default alias")
+            else:
+                ctx.bad("A3", key, "get_aliases_by_symbol prefers `%s` and falls back to `%s`: the default alias now hides a step's explicit alias, so a name under which the symbol appears "
+                        "in trees gets no entry in node-types.json" % (verdict[1][:60], verdict[2][:60]))
     # M4: a named token that shares its kind with a rule has no children and no fields that are required
     fn = find_fn(ctx, F, "node_types::build_token_entries", "M4")
     if fn:
